@@ -70,7 +70,11 @@ func execStress(sc StressScenario) *evid.Failure {
 			inflight.Add(-1)
 			return nil, nil
 		}
-		l := limitparallelrequests.New(sc.Total, sc.PerPath, do, nil)
+		doObserve := func(req *pool.Message, _ func(*pool.Message)) (limitparallelrequests.Observation, error) {
+			_, err := do(req)
+			return nil, err
+		}
+		l := limitparallelrequests.New(sc.Total, sc.PerPath, do, doObserve)
 		var wg sync.WaitGroup
 		start := make(chan struct{})
 		for i, w := range sc.Workers {
@@ -88,7 +92,11 @@ func execStress(sc StressScenario) *evid.Failure {
 					tm := time.AfterFunc(time.Duration(w.CancelUs)*time.Microsecond, cancel)
 					defer tm.Stop()
 				}
-				_, _ = l.Do(m)
+				if i%2 == 1 {
+					_, _ = l.DoObserve(m, nil)
+				} else {
+					_, _ = l.Do(m)
+				}
 			}(i, w)
 		}
 		close(start)
